@@ -118,7 +118,24 @@ def extract_scn(out):
     return res
 
 
-def run_vh(vh, family, work, tag, scenarios, nrand, rlen, seed, cfg):
+def merge_pair(path_a, path_b, out):
+    """Zips two recordings of the same history (two independent executions) into one trace with A/B observations."""
+    la, lb = load_lines(path_a), load_lines(path_b)
+    n = max(len(la), len(lb))
+    with open(out, "w") as fh:
+        for i in range(n):
+            ea = la[i] if i < len(la) else {"a": "missing"}
+            eb = lb[i] if i < len(lb) else {"a": "missing"}
+            if ea.get("a") == "reset" and eb.get("a") == "reset":
+                fh.write(json.dumps({"a": "reset", "post": {}}) + "\n")
+                continue
+            a = ea.get("a") if ea.get("a") in ("tx", "block") else "tx"
+            fh.write(json.dumps({"a": a, "A": {k: v for k, v in ea.items() if k not in ("post",)},
+                                 "B": {k: v for k, v in eb.items() if k not in ("post",)}}) + "\n")
+    return out
+
+
+def run_vh(vh, family, work, tag, scenarios, nrand, rlen, seed, cfg, env=None):
     """Runs the harness on a list of scenarios plus nrand random histories; returns trace path and stats."""
     scn = os.path.join(work, f"scn-{tag}.jsonl")
     with open(scn, "w") as fh:
@@ -127,7 +144,9 @@ def run_vh(vh, family, work, tag, scenarios, nrand, rlen, seed, cfg):
     out = os.path.join(work, f"trace-{tag}.ndjson")
     cmd = [vh, family, "-seed", str(seed), "-out", out, "-scn", scn, "-random", str(nrand), "-len", str(rlen),
            "-cfg", json.dumps(cfg)]
-    p = subprocess.run(cmd, stdout=subprocess.PIPE, stderr=subprocess.PIPE, text=True, timeout=3600)
+    e = dict(os.environ)
+    e.update(env or {})
+    p = subprocess.run(cmd, stdout=subprocess.PIPE, stderr=subprocess.PIPE, text=True, timeout=3600, env=e)
     if p.returncode != 0:
         raise Infra(f"harness failed ({p.returncode}): {p.stderr[-3000:]}")
     m = re.search(r"VH family=\S+ scenarios=(\d+) steps=(\d+) lines=(\d+)", p.stdout)
@@ -185,7 +204,7 @@ def scenario_of(lines, l):
 def step_digest(lines, l):
     """Digest of (pre-state, label, post-state) of 1-based line l, for counting distinct steps."""
     e = lines[l - 1]
-    pre = lines[l - 2]["post"] if l >= 2 else None
+    pre = lines[l - 2].get("post") if l >= 2 else None
     lab = {k: v for k, v in e.items() if k not in ("post", "x")}
     return hashlib.sha1(json.dumps([pre, lab, e.get("post")], sort_keys=True).encode()).hexdigest()
 
